@@ -59,11 +59,12 @@ type Knobs struct {
 	PInitLookup        float64
 	PProcComp          float64
 	PZero              float64
+	PAlt               float64
 }
 
 func wireKnobs(r rng) Knobs {
 	k := Knobs{MinTypes: 2, MaxTypes: 5, MaxInstPerType: 3, MaxPoints: 3, PSatisfiable: 0.92,
-		PLazy: 0.2, PInit: 0.5, PEmbed: 0.2, PByName: 0.25, PFunc: 0.12, POptional: 0.25, PQual: 0.3, PPrimary: 0.2, PDup: 0.01, PSlice: 0.35, PInitLookup: 0.12, PProcComp: 0.15, PZero: 0.12}
+		PLazy: 0.2, PInit: 0.5, PEmbed: 0.2, PByName: 0.25, PFunc: 0.12, POptional: 0.25, PQual: 0.3, PPrimary: 0.2, PDup: 0.01, PSlice: 0.35, PInitLookup: 0.12, PProcComp: 0.15, PZero: 0.12, PAlt: 0.12}
 	// swarm: per program, switch some features off or up
 	if r.p(0.3) {
 		k.PLazy = 0
@@ -126,7 +127,7 @@ func Generate(seed uint64, id, family string) *sdl.Program {
 		// a share of the holders gets an optional point that stays unsatisfied in front of
 		// a by-name point whose name is absent / of an incompatible type (required or optional)
 		for _, t := range p.Types {
-			if t.Zero || !r.p(0.3) {
+			if t.Zero || sdl.IsAlt(t.Name) || !r.p(0.3) {
 				continue
 			}
 			pre := &sdl.Point{Field: "FA", Kind: sdl.KPtr, Target: t.Name, Sel: sdl.SelName, Name: "absent-optional", Optional: true}
@@ -149,7 +150,7 @@ func Generate(seed uint64, id, family string) *sdl.Program {
 			p.Sources[0].Doc["pick"] = map[string]any{"name": p.NameOf(pick(r, p.Instances))}
 		}
 		for _, t := range p.Types {
-			if t.Zero || !r.p(0.3) {
+			if t.Zero || sdl.IsAlt(t.Name) || !r.p(0.3) {
 				continue
 			}
 			tgt := pick(r, p.Instances)
@@ -194,7 +195,7 @@ func substKnobs(r rng) Knobs {
 	k.PLazy = 0.1
 	k.PInitLookup = 0.3
 	k.PInit = 0.8
-	k.PProcComp, k.PZero = 0, 0
+	k.PProcComp, k.PZero, k.PAlt = 0, 0, 0
 	return k
 }
 
@@ -206,7 +207,7 @@ func lifeKnobs(r rng) Knobs {
 	if k.PLazy == 0 && r.p(0.5) {
 		k.PLazy = 0.3
 	}
-	k.PProcComp, k.PZero = 0, 0
+	k.PProcComp, k.PZero, k.PAlt = 0, 0, 0
 	return k
 }
 
@@ -300,10 +301,51 @@ func genGraph(r rng, seed uint64, id, family string, k Knobs) *sdl.Program {
 			ni++
 		}
 	}
+	// a provider type in a second package with the same package name and the same type name
+	// as a main-package type (two distinct types whose short name "progs.<Name>" is equal)
+	var altPair [2]string
+	if r.p(k.PAlt) {
+		var mains []*sdl.Type
+		for _, t := range p.Types {
+			if !t.Zero {
+				mains = append(mains, t)
+			}
+		}
+		tm := pick(r, mains)
+		ta := &sdl.Type{Name: tm.Name + sdl.AltSuffix, Init: r.p(0.5), Qual: r.p(0.4), Primary: r.p(0.2), Lazy: r.p(0.2)}
+		for q := 0; q < p.NIfaces; q++ {
+			if r.p(0.5) {
+				ta.Ifaces = append(ta.Ifaces, q)
+			}
+		}
+		p.Types = append(p.Types, ta)
+		for j := 0; j < r.n(1, 2); j++ {
+			inst := &sdl.Instance{ID: fmt.Sprintf("c%d", ni), Type: ta.Name}
+			ni++
+			if j > 0 {
+				inst.Alias = fmt.Sprintf("n%d", alias)
+				alias++
+			}
+			if ta.Qual {
+				inst.Qual = pick(r, qualVals)
+			}
+			p.Instances = append(p.Instances, inst)
+		}
+		altPair = [2]string{tm.Name, ta.Name}
+	}
 	// points
 	for _, t := range p.Types {
-		if t.Zero {
+		if t.Zero || sdl.IsAlt(t.Name) {
 			continue
+		}
+		if altPair[0] != "" && r.p(0.5) {
+			// one holder asks for both namesakes by type
+			kind := sdl.KPtr
+			if r.p(0.5) {
+				kind = sdl.KPtrs
+			}
+			t.Points = append(t.Points, &sdl.Point{Field: "FM", Kind: kind, Target: altPair[0], Sel: sdl.SelType, Optional: r.p(0.5)},
+				&sdl.Point{Field: "FN", Kind: kind, Target: altPair[1], Sel: sdl.SelType, Optional: r.p(0.5)})
 		}
 		np := r.n(0, k.MaxPoints)
 		for j := 0; j < np; j++ {
